@@ -144,6 +144,9 @@ def rules(ctx: Ctx) -> None:
     rets = [n for n in prog.walk_fn(split) if isinstance(n, ast.Return) and n.value is not None]
     comps = [v for r_ in rets for v in prog.value_sources(split, r_.value) if isinstance(v, (ast.ListComp, ast.GeneratorExp))]
     if len(rets) != 1 or len(comps) != 1 or len(comps[0].generators) != 1:
+        ctx.ob("R05.2", "split:one-pass-keep-or-drop", False, split.loc(),
+               "split() does not return a list built by one pass over the parser's pieces in which each piece is kept or dropped as it is (normal form: one comprehension): "
+               "pieces that are merged, re-joined or re-split no longer are the statements of the script")
         raise AnalysisError("split(): the returned list is not built by one pass over the parsed pieces (normal form: one comprehension)")
     comp = comps[0]
     g0 = comp.generators[0]
